@@ -611,6 +611,15 @@ func writeEvidence(verif, prop, tier string, seed int, eng *Engine, fvs []*FuncV
 	}
 	if len(frags) > 0 {
 		cov["fragments"] = frags
+		if prop == "C04" {
+			// registered library functions deliberately left out of the no-panic sweep, with the reason
+			if data, err := os.ReadFile(filepath.Join(verif, "tools", "sweep_exclude.json")); err == nil {
+				var ex map[string]string
+				if json.Unmarshal(data, &ex) == nil {
+					cov["sweep_not_covered"] = ex
+				}
+			}
+		}
 	}
 	ev := map[string]interface{}{
 		"property_id": prop, "tier": tier, "seed": seed, "level": "proof", "coverage": cov,
